@@ -31,7 +31,7 @@
  *   LMMVIOL ... / LMMMON ...                      (monitor)
  *   ABORT <idx> <code>                            the library aborted (xbt_die / xbt_assert / BMF give-up) in op idx;
  *                                                 the message is on stderr; exit status is SIGABRT
- *   CPULIMIT <idx> <code>                         op idx burnt 3 s of CPU time (a history takes milliseconds): the solver
+ *   CPULIMIT <idx> <code>                         op idx burnt 20 s of CPU time (a history takes milliseconds): the solver
  *                                                 does not return; exit status is SIGXCPU
  *   EXCEPTION <idx> <what>                        a C++ exception escaped the library; the run stops there
  *   DONE solves=<n> effective=<n> wrap=<0|1>
@@ -151,9 +151,9 @@ int main(int argc, char** argv)
   struct rlimit rl = {0, 0};
   setrlimit(RLIMIT_CORE, &rl);
   signal(SIGABRT, on_abort);
-  /* self-destruct: a solver that loops forever is killed by SIGXCPU after 3 s of CPU time (load independent; a normal
+  /* self-destruct: a solver that loops forever is killed by SIGXCPU after 20 s of CPU time (load independent; a normal
    * history takes a few ms), and by SIGALRM after 120 s of wall time whatever happens to the runner */
-  struct rlimit cpu = {3, 4};
+  struct rlimit cpu = {20, 25};
   setrlimit(RLIMIT_CPU, &cpu);
   signal(SIGXCPU, on_xcpu);
   alarm(120);
